@@ -741,6 +741,13 @@ class PathCtx:
         factor, assert the ground instance of the lemma  b != 0 -> (b*k) % b == 0 and (b*k) div b == k.
         The lemma schema itself is proved by z3 once per run (lemmas.prove_schemas), so nothing is assumed."""
         try:
+            if not z3.is_int_value(b):
+                # the defining identity of div/mod (an axiom of the theory): both solvers reason poorly about div/mod by
+                # a *symbolic* divisor unless the ground instance is spelled out
+                key0 = ("divmod", a.get_id(), b.get_id())
+                if key0 not in self._hinted:
+                    self._hinted.add(key0)
+                    self.assume_def(z3.Implies(b > 0, z3.And(a == b * (a / b) + a % b, a % b >= 0, a % b < b)))
             if not z3.is_app(a) or a.decl().kind() != z3.Z3_OP_MUL:
                 return
 
@@ -949,6 +956,34 @@ class PathCtx:
         if self.end_scope is not None and sid == self.end_scope and len(self.trace) >= len(self.prefix):
             if _sys.exc_info()[0] is None:
                 raise PathEnd()
+
+    # -- quotient facts: q*b <= a < (q+1)*b ---------------------------------------------------------------
+    def register_quotient(self, q, a, b):
+        """Record the fact q == a div b (given as the division-free pair of inequalities, asserted by the caller) and
+        assert ground instances of the quotient lemmas (monotone / additive; schemas proved in lemmas.py) against the
+        facts with the same divisor recorded so far. Instances are valid formulas: nothing is assumed."""
+        facts = self.ghost.setdefault("quotients", [])
+        qz, az, bz = tz(q), tz(a), tz(b)
+
+        def quot(qq, xx):
+            return z3.And(qq * bz <= xx, xx < (qq + 1) * bz)
+
+        same = [(q2, a2) for (q2, a2, b2) in facts if b2.eq(bz)]
+        for q2, a2 in same:
+            self.assume_def(z3.Implies(z3.And(bz >= 1, quot(qz, az), quot(q2, a2), az <= a2), qz <= q2))
+            self.assume_def(z3.Implies(z3.And(bz >= 1, quot(qz, az), quot(q2, a2), a2 <= az), q2 <= qz))
+        # additive: (q1,a1) exact multiple, (q3,a3), (q2,a1+a3)
+        allf = same + [(qz, az)]
+        if len(allf) <= 8:
+            for (x1, y1) in allf:
+                for (x3, y3) in allf:
+                    for (x2, y2) in allf:
+                        if x2 is x1 or x2 is x3:
+                            continue
+                        if not (x2 is qz or x1 is qz or x3 is qz):
+                            continue
+                        self.assume_def(z3.Implies(z3.And(bz >= 1, y1 == x1 * bz, quot(x3, y3), quot(x2, y2), y2 == y1 + y3), x2 == x1 + x3))
+        facts.append((qz, az, bz))
 
     # -- exceptions leaving a scoped block ---------------------------------------
     def check_exception_now(self, e):
